@@ -11,6 +11,7 @@ import (
 	"net/http"
 	"strings"
 	"sync"
+	"sync/atomic"
 	"time"
 )
 
@@ -51,6 +52,7 @@ type FakeProxy struct {
 	batches chan []string
 	listN   int // list replies so far (their framing rotates)
 	failN   int // failed list calls so far (their kind rotates)
+	parked  int32 // list calls waiting for a batch right now
 	// FailKinds: the ways a list call fails, in rotation (default 503 / close / 500-body).  net/http re-sends a GET
 	// whose kept-alive connection was closed under it, so "close" is not always a failure the agent gets to see
 	FailKinds []string
@@ -110,6 +112,8 @@ func (p *FakeProxy) serve(w http.ResponseWriter, r *http.Request) {
 		if p.OnListArrive != nil {
 			p.OnListArrive()
 		}
+		atomic.AddInt32(&p.parked, 1)
+		defer atomic.AddInt32(&p.parked, -1)
 		select {
 		case ids := <-p.batches:
 			if len(ids) == 1 && strings.HasPrefix(ids[0], "!fail") {
@@ -194,6 +198,20 @@ func (p *FakeProxy) serve(w http.ResponseWriter, r *http.Request) {
 		w.WriteHeader(status)
 		w.Write(raw)
 	}
+}
+
+// WaitNoParked waits until no list call is waiting for a batch any more (after the agent that made it was killed: its
+// connection is gone, the handler notices and leaves).  A batch pushed while such a handler is still there could be
+// handed to it - written to a dead connection and lost.
+func (p *FakeProxy) WaitNoParked(d time.Duration) bool {
+	deadline := time.Now().Add(d)
+	for time.Now().Before(deadline) {
+		if atomic.LoadInt32(&p.parked) == 0 {
+			return true
+		}
+		time.Sleep(2 * time.Millisecond)
+	}
+	return false
 }
 
 // ReadUpload reads an upload body to its end, parses it as an HTTP response and records it.
